@@ -354,3 +354,22 @@ Theorem read_fuel_adequate s n1 n2 r extra :
   read_caps (S (length s) + extra) s n1 n2 r = read_caps (S (length s)) s n1 n2 r /\
   read_opts (S (length s) + extra) s n1 r = read_opts (S (length s)) s n1 r.
 Proof. split; [apply read_caps_fuel | apply read_opts_fuel]; lia. Qed.
+
+(* ------------------------------------------------------------ capability precedence *)
+(* the AS number a reader understands is the one of the LAST 4-octet capability,
+   whatever the 2-octet field says -- AS_TRANS or not *)
+Lemma understood_asn_last_as4 asn16 hold id cs1 cs2 a :
+  a < 4294967296 ->
+  (forall c, In c cs2 -> cap_as4 c = None) ->
+  r_asn (understood {| o_ver := 4; o_asn := asn16; o_hold := hold; o_id := id;
+                       o_params := [PCaps (cs1 ++ {| c_code := 65; c_val := u32 a |} :: cs2)] |}) = a.
+Proof.
+  intros Ha Hno. unfold understood, open_caps. cbn [o_params o_asn map concat r_asn]. rewrite app_nil_r.
+  rewrite fold_left_app. cbn [fold_left].
+  assert (E : cap_as4 {| c_code := 65; c_val := u32 a |} = Some a).
+  { unfold cap_as4. cbn [c_code c_val]. change (len (u32 a)) with 4. cbn [N.eqb Pos.eqb andb].
+    f_equal. unfold u32. cbn [be]. rewrite N.mul_0_l, N.add_0_l. apply u32_val. assumption. }
+  rewrite E. clear E.
+  induction cs2 as [|c cs2 IH]; [reflexivity|]. cbn [fold_left].
+  rewrite (Hno c (or_introl eq_refl)). apply IH. intros c' Hc'. apply Hno. right. assumption.
+Qed.
